@@ -631,7 +631,7 @@ def handleAcc (t : TextTable) (form da ka db kb same obs : String) : Option Line
     | .sqrt => if o && !(A.dim.all (· % 2 == 0)) then .prop "acc.sqrt.oracle" "a root of non-divisible exponents compiles" else .ok
     | .cbrt => if o && !(A.dim.all (· % 3 == 0)) then .prop "acc.cbrt.oracle" "a root of non-divisible exponents compiles" else .ok
     | .neg => .ok
-    | .satadd | .satsub | .sum =>
+    | .satadd | .satsub | .sum | .sumref | .addref | .subref | .addaref =>
       if differ && o then .prop s!"acc.{form}.oracle" "a program accumulating / saturating-adding different dimensions/kinds compiles"
       else if A == e.tt && B == e.tt && o then .prop s!"acc.{form}.oracle" "two temperature points can be added/subtracted (saturating / summed)"
       else .ok
